@@ -8,6 +8,14 @@ Status of the given statements:
   `replacePath_join`, `pathsMatch_refl/symm/trans/iff_normalize`, `translate_outside_none`,
   `translate_inside_some`, `translate_lands_in_root`, `translate_prefix_sibling_none`, `mkCfg_WF`,
   the `example`.
+* follow-up (reviewer seed R4-C13), both values of `for_display` / `strict`, optional arguments:
+  `case_sensitive_normalize_preserves_case`, `case_sensitive_normalize_flag_irrelevant`,
+  `case_sensitive_normalize_chars`, `normalizePath_idem_cs`, `pathsMatch_display_iff_default_cs`,
+  `pathsMatch_cs_exact`, `display_folds_folders_keeps_leaf`, `pathsMatch_display_iff_ci`,
+  `pathsMatch_display_implies_default`, `normalizePath_matches_self`, `joinArgs_strs/_nested/_none`,
+  `isSubpathOpt_rel`, `isSubpathOfRoot_eq`, `isSubpath_same`, `isSubpath_strict`
+  (`pathsMatch_refl/symm/trans/iff_normalize` and `normalizePath_idem_partial` are already stated
+  for every flag value).
 * FALSE as stated (refuted below by a proved `…_counterexample` theorem), replaced by a
   `…_partial` theorem with an explicit extra hypothesis: `normalizePath_idem`,
   `pathsMatch_display_leaf`, `translate_roundtrip`.
@@ -150,6 +158,162 @@ theorem pathsMatch_display_leaf_basename (c : Cfg) (h : c.WF) (hcs : c.cs = fals
   have h2 : normalizePath { c with cs := true } p false = nrm c p := by
     rw [normalizePath_cs (c := { c with cs := true }) rfl]; rfl
   rw [h2, basename_display h.ok hcs p]
+
+/-! ### both flag values, optional arguments (follow-up to reviewer seed R4-C13) -/
+
+/-- On a case-sensitive provider `normalize_path(p, for_display)` never consults the case map:
+    for either flag value the result is the one obtained with ANY other per-character map `g` in
+    place of `str.lower` (in particular the identity) and the default flag.  Holds for every
+    configuration, drive-letter joins included. -/
+theorem case_sensitive_normalize_preserves_case (c : Cfg) (hcs : c.cs = true) (p : Str) (fd : Bool)
+    (g : Char → Char) :
+    normalizePath c p fd = normalizePath { c with lower := g } p false := by
+  simp only [normalizePath, hcs, if_true]
+  rfl
+
+/-- …and for_display is irrelevant there -/
+theorem case_sensitive_normalize_flag_irrelevant (c : Cfg) (hcs : c.cs = true) (p : Str) :
+    normalizePath c p true = normalizePath c p false := by
+  simp [normalizePath, hcs]
+
+/-- …and every character of the result is the separator or a character of the input (no
+    character is replaced by its other-case variant) -/
+theorem case_sensitive_normalize_chars (c : Cfg) (h : c.WF) (hcs : c.cs = true) (p : Str) (fd : Bool) :
+    ∀ x ∈ normalizePath c p fd, x = c.sep ∨ x ∈ p := by
+  intro x hx
+  rw [normalizePath_cs hcs] at hx
+  exact mem_nrm h.ok hx
+
+/-- normalisation is idempotent for both flag values on case-sensitive providers (no extra guard) -/
+theorem normalizePath_idem_cs (c : Cfg) (h : c.WF) (hcs : c.cs = true) (p : Str) (fd : Bool) :
+    normalizePath c (normalizePath c p fd) fd = normalizePath c p fd :=
+  normalizePath_idem_partial c h (fun e => by rw [hcs] at e; cases e) p fd
+
+/-- on a case-sensitive provider the two equality flavours coincide -/
+theorem pathsMatch_display_iff_default_cs (c : Cfg) (hcs : c.cs = true) (a b : Option Str) :
+    pathsMatch c a b true = pathsMatch c a b false := by
+  cases a <;> cases b <;> simp [pathsMatch, case_sensitive_normalize_flag_irrelevant c hcs]
+
+/-- on a case-sensitive provider path equality (either flavour) is never case-folded: it is
+    equality of the normal forms computed with the identity in place of `str.lower` -/
+theorem pathsMatch_cs_exact (c : Cfg) (hcs : c.cs = true) (a b : Str) (fd : Bool) :
+    pathsMatch c (some a) (some b) fd = true ↔
+      normalizePath { c with lower := id } a false = normalizePath { c with lower := id } b false := by
+  rw [pathsMatch_iff_normalize, case_sensitive_normalize_preserves_case c hcs a fd id,
+    case_sensitive_normalize_preserves_case c hcs b fd id]
+
+/-- What HEAD does for `for_display=True` on a case-insensitive provider: the folder part of the
+    case-sensitive normal form is folded, the leaf is kept exactly. -/
+theorem display_folds_folders_keeps_leaf (c : Cfg) (h : c.WF) (hcs : c.cs = false)
+    (hla : ∀ a, c.alt = some a → ∀ x, c.lower x = a → x = a) (p : Str) :
+    dirname c (normalizePath c p true)
+      = lowerStr c (dirname c (normalizePath { c with cs := true } p false)) ∧
+    basename c (normalizePath c p true) = basename c (normalizePath { c with cs := true } p false) := by
+  refine ⟨?_, pathsMatch_display_leaf_basename c h hcs p⟩
+  have hl := comps_C' h.ok p
+  rw [nrm_eq_cs, nrm_eq h.ok, normalizePath_true_form h.ok hcs hla p, dirname_canon h.ok hl,
+    dirname_canon h.ok (hl.disp h.ok hla), dropLast_dispComps, lowerStr_canon h.ok]
+
+/-- `paths_match(a, b, for_display=True)` on a case-insensitive provider: exactly "folder parts
+    equal after folding and leaves equal as they are". -/
+theorem pathsMatch_display_iff_ci (c : Cfg) (h : c.WF) (hcs : c.cs = false)
+    (hla : ∀ a, c.alt = some a → ∀ x, c.lower x = a → x = a) (a b : Str) :
+    pathsMatch c (some a) (some b) true = true ↔
+      lowerStr c (dirname c (normalizePath { c with cs := true } a false))
+        = lowerStr c (dirname c (normalizePath { c with cs := true } b false)) ∧
+      basename c (normalizePath { c with cs := true } a false)
+        = basename c (normalizePath { c with cs := true } b false) := by
+  rw [pathsMatch_iff_normalize]
+  constructor
+  · intro e
+    have ha := display_folds_folders_keeps_leaf c h hcs hla a
+    have hb := display_folds_folders_keeps_leaf c h hcs hla b
+    rw [e] at ha
+    exact ⟨ha.1.symm.trans hb.1, ha.2.symm.trans hb.2⟩
+  · intro ⟨e1, e2⟩
+    rw [nrm_eq_cs, nrm_eq_cs] at e1 e2
+    rw [normalizePath_true_def hcs, normalizePath_true_def hcs, e1, e2]
+
+/-- the display flavour of path equality is finer than the default one -/
+theorem pathsMatch_display_implies_default (c : Cfg) (h : c.WF)
+    (hla : c.cs = false → ∀ a, c.alt = some a → ∀ x, c.lower x = a → x = a) (a b : Str)
+    (hm : pathsMatch c (some a) (some b) true = true) : pathsMatch c (some a) (some b) false = true := by
+  cases hcs : c.cs with
+  | true => rw [← pathsMatch_display_iff_default_cs c hcs]; exact hm
+  | false =>
+    rw [pathsMatch_iff_normalize] at hm ⊢
+    rw [← (pathsMatch_display_leaf_partial c h hcs (hla hcs) a).1,
+      ← (pathsMatch_display_leaf_partial c h hcs (hla hcs) b).1, hm]
+
+/-- a path and its normal form (either flag) are the same path -/
+theorem normalizePath_matches_self (c : Cfg) (h : c.WF)
+    (hla : c.cs = false → ∀ a, c.alt = some a → ∀ x, c.lower x = a → x = a) (p : Str) (fd : Bool) :
+    pathsMatch c (some (normalizePath c p fd)) (some p) false = true := by
+  rw [pathsMatch_iff_normalize]
+  cases fd with
+  | false => exact normalizePath_idem_partial c h hla p false
+  | true =>
+    cases hcs : c.cs with
+    | true =>
+      rw [case_sensitive_normalize_flag_irrelevant c hcs]
+      exact normalizePath_idem_partial c h hla p false
+    | false =>
+      have hl := comps_C' h.ok p
+      rw [normalizePath_true_form h.ok hcs (hla hcs) p, normalizePath_false_form h.ok,
+        normalizePath_false_form h.ok, C_canon h.ok (hl.disp h.ok (hla hcs))]
+      congr 1
+      have e : ∀ l : List Str, l.map (fold c) = l.map (lowerStr c) :=
+        fun l => List.map_congr_left (fun s _ => fold_eq_lowerStr hcs s)
+      rw [e, e, map_lowerStr_dispComps h.ok]
+
+/-- `join(*paths)` with nested lists/tuples/`None`: nesting is irrelevant, only the flattened
+    sequence of strings matters (so every `join` law above transfers) -/
+theorem joinArgs_strs (c : Cfg) (ps : List Str) : joinArgs c (ps.map JArg.str) = join c ps := by
+  rw [joinArgs, flattenArgs_strs]
+
+theorem joinArgs_nested (c : Cfg) (l m r : List JArg) :
+    joinArgs c (l ++ JArg.seq m :: r) = joinArgs c (l ++ m ++ r) := by
+  simp [joinArgs, flattenArgs_append, flattenArgs, JArg.flatten]
+
+theorem joinArgs_none (c : Cfg) (l r : List JArg) :
+    joinArgs c (l ++ JArg.none :: r) = joinArgs c (l ++ r) := by
+  simp [joinArgs, flattenArgs_append, flattenArgs, JArg.flatten]
+
+/-- `is_subpath` / `is_subpath_of_root` with `None`: only two strings can be related -/
+theorem isSubpathOpt_rel (c : Cfg) (f t : Option Str) (strict : Bool) (h : isSubpathOpt c f t strict ≠ .no) :
+    ∃ f' t', f = some f' ∧ t = some t' ∧ isSubpathOpt c f t strict = isSubpath c f' t' strict := by
+  cases f <;> cases t <;> simp [isSubpathOpt] at h ⊢
+
+/-- `is_subpath_of_root(target, strict)` is `is_subpath(root_path, target, strict)`, flag included -/
+theorem isSubpathOfRoot_eq (c : Cfg) (root target : Option Str) (strict : Bool) :
+    isSubpathOfRoot c root target strict = isSubpathOpt c root target strict := rfl
+
+/-- equal (normalised, folded) non-empty paths: the default answer is the separator ("same") -/
+theorem isSubpath_same (c : Cfg) (f t : Str) (hf : f ≠ []) (ht : t ≠ [])
+    (he : (if c.cs then normSeps c f else lowerStr c (normSeps c f)) =
+            (if c.cs then normSeps c t else lowerStr c (normSeps c t))) :
+    isSubpath c f t false = .rel [c.sep] := by
+  unfold isSubpath
+  simp [hf, ht, he]
+
+/-- `strict=True` differs from the default only on equal (normalised, folded) paths: there it
+    answers `False`; everywhere else it is the default answer -/
+theorem isSubpath_strict (c : Cfg) (f t : Str) :
+    isSubpath c f t true =
+      if f ≠ [] ∧ t ≠ [] ∧
+          (if c.cs then normSeps c f else lowerStr c (normSeps c f)) =
+            (if c.cs then normSeps c t else lowerStr c (normSeps c t))
+      then .no else isSubpath c f t false := by
+  unfold isSubpath
+  by_cases hf : f = []
+  · simp [hf]
+  · by_cases ht : t = []
+    · simp [ht]
+    · by_cases he : (if c.cs then normSeps c f else lowerStr c (normSeps c f)) =
+          (if c.cs then normSeps c t else lowerStr c (normSeps c t))
+      · simp [hf, ht, he]
+      · simp [hf, ht, he]
+
 
 theorem translate_outside_none (cF cT : Cfg) (rF rT p : Str) (h : isSubpath cF rF p false = .no) :
     translate cF cT rF rT p = none := by
